@@ -1532,3 +1532,124 @@ def constant_attr_access(tree):
     T().visit(tree)
     ast.fix_missing_locations(tree)
     return n
+
+
+def _is_pure(e):
+    """an expression without side effects: names, constants, attribute reads, arithmetic, comparisons, boolean operators, subscripts,
+    len() / abs() / min / max / sum of pure arguments, displays, comprehensions of pure parts, calls of zero-argument selectors are NOT"""
+    for x in ast.walk(e):
+        if isinstance(x, ast.Call):
+            if not (isinstance(x.func, ast.Name) and x.func.id in ('len', 'abs', 'bool', 'int', 'str', 'min', 'max', 'sum', 'sorted', 'list', 'tuple', 'set')):
+                return False
+        if isinstance(x, (ast.Await, ast.Yield, ast.YieldFrom, ast.NamedExpr, ast.Lambda)):
+            return False
+    return True
+
+
+def fuse_boolean_results(tree):
+    """`if A: r = X else: r = False` (or `r = True` / the mirrored forms) immediately followed by `if r: ...`, r used nowhere else:
+    the two statements become `if A and X: ...` (`if A or X`, ...).  What inlining a small predicate helper into an if-test leaves."""
+    n = 0
+    for fn in [x for x in ast.walk(tree) if isinstance(x, (ast.FunctionDef, ast.AsyncFunctionDef))]:
+        changed = True
+        while changed:
+            changed = False
+            for node in ast.walk(fn):
+                for fld in ('body', 'orelse', 'finalbody'):
+                    blk = getattr(node, fld, None)
+                    if not isinstance(blk, list):
+                        continue
+                    for i in range(len(blk) - 1):
+                        a, b = blk[i], blk[i + 1]
+                        if not (isinstance(a, ast.If) and len(a.body) == 1 and len(a.orelse) == 1 and isinstance(b, ast.If) and isinstance(b.test, ast.Name)):
+                            continue
+                        r = b.test.id
+                        sa, sb = a.body[0], a.orelse[0]
+                        if not all(isinstance(s_, ast.Assign) and len(s_.targets) == 1 and isinstance(s_.targets[0], ast.Name) and s_.targets[0].id == r for s_ in (sa, sb)):
+                            continue
+                        occ = [x for x in ast.walk(fn) if isinstance(x, ast.Name) and x.id == r]
+                        if len(occ) != 3:
+                            continue
+                        va, vb = sa.value, sb.value
+
+                        def const(v):
+                            return v.value if isinstance(v, ast.Constant) and isinstance(v.value, bool) else None
+                        if const(vb) is False and _is_pure(va):
+                            test = ast.BoolOp(op=ast.And(), values=[a.test, va])
+                        elif const(va) is True and _is_pure(vb):
+                            test = ast.BoolOp(op=ast.Or(), values=[a.test, vb])
+                        elif const(va) is False and _is_pure(vb):
+                            test = ast.BoolOp(op=ast.And(), values=[negate(a.test), vb])
+                        elif const(vb) is True and _is_pure(va):
+                            test = ast.BoolOp(op=ast.Or(), values=[negate(a.test), va])
+                        else:
+                            continue
+                        # flatten nested and/or of the same kind
+                        vals = []
+                        for v in test.values:
+                            if isinstance(v, ast.BoolOp) and type(v.op) is type(test.op):
+                                vals += v.values
+                            else:
+                                vals.append(v)
+                        test.values = vals
+                        b.test = ast.copy_location(test, a)
+                        ast.fix_missing_locations(b)
+                        del blk[i]
+                        n += 1
+                        changed = True
+                        break
+                    if changed:
+                        break
+                if changed:
+                    break
+    return n
+
+
+def forward_single_use_temps(tree):
+    """`t = <pure expression>` immediately followed by a statement whose head (test of an if/while, value of an assignment / return /
+    expression statement, iterable of a for) reads t exactly once, t bound once and read nowhere else: the expression takes t's
+    place.  (Not for `while` tests - evaluated repeatedly - nor when the statement re-binds a name the expression reads.)"""
+    n = 0
+    for fn in [x for x in ast.walk(tree) if isinstance(x, (ast.FunctionDef, ast.AsyncFunctionDef))]:
+        changed = True
+        while changed:
+            changed = False
+            for node in ast.walk(fn):
+                for fld in ('body', 'orelse', 'finalbody'):
+                    blk = getattr(node, fld, None)
+                    if not isinstance(blk, list):
+                        continue
+                    for i in range(len(blk) - 1):
+                        a, b = blk[i], blk[i + 1]
+                        if not (isinstance(a, ast.Assign) and len(a.targets) == 1 and isinstance(a.targets[0], ast.Name) and _is_pure(a.value)
+                                and not isinstance(a.value, (ast.Name, ast.Constant))):
+                            continue
+                        t = a.targets[0].id
+                        if '__' not in t:
+                            continue        # only temporaries introduced by inlining (name__helper_N): named locals of the source stay
+                        occ = [x for x in ast.walk(fn) if isinstance(x, ast.Name) and x.id == t]
+                        if len(occ) != 2:
+                            continue
+                        if isinstance(b, ast.If):
+                            head = b.test
+                        elif isinstance(b, (ast.Assign, ast.AugAssign, ast.Return, ast.Expr)) and b.value is not None:
+                            head = b.value
+                        elif isinstance(b, ast.For):
+                            head = b.iter
+                        else:
+                            continue
+                        use = [x for x in ast.walk(head) if isinstance(x, ast.Name) and x.id == t and isinstance(x.ctx, ast.Load)]
+                        if len(use) != 1 or any(isinstance(p, (ast.Lambda, ast.ListComp, ast.SetComp, ast.DictComp, ast.GeneratorExp))
+                                                and any(y is use[0] for y in ast.walk(p)) for p in ast.walk(head)):
+                            continue
+                        _replace_expr(b, use[0], copy.deepcopy(a.value))
+                        ast.fix_missing_locations(b)
+                        del blk[i]
+                        n += 1
+                        changed = True
+                        break
+                    if changed:
+                        break
+                if changed:
+                    break
+    return n
